@@ -30,6 +30,7 @@ type worker struct {
 	cpuStart time.Duration
 	lastCPU  time.Duration
 	lastMove time.Time
+	winStart time.Time
 	ended    map[int]bool
 }
 
@@ -143,15 +144,21 @@ func runWorker(spec *Spec, ph *Phase, tier string, seed uint64, from, to int, jo
 					stack := allStacks()
 					r := Result{Sig: "non-terminating"}
 					r.Violate("non-terminating", caseFrame(stack), fmt.Sprintf("phase %s case %d", ph.Name, i),
-						fmt.Sprintf("case consumed %.1f CPU-seconds (budget %.1f) without returning\n%s", (c - w.cpuStart).Seconds(), budget.Seconds(), stack), nil)
+						fmt.Sprintf("case consumed %.1f CPU-seconds (budget %.1f) without returning\n%s", (c-w.cpuStart).Seconds(), budget.Seconds(), stack), nil)
 					w.write(jline{T: "E", I: i, R: &r})
 					w.jf.Sync()
 					os.Exit(93)
 				}
-				if c-w.lastCPU > 20*time.Millisecond {
+				// progress is measured per 5 s window; the watchdog's own polling costs
+				// a few ms per window and must not count as progress
+				if time.Since(w.winStart) >= 5*time.Second {
+					if c-w.lastCPU > 100*time.Millisecond {
+						w.lastMove = time.Now()
+					}
 					w.lastCPU = c
-					w.lastMove = time.Now()
-				} else if time.Since(w.lastMove) > stallWall {
+					w.winStart = time.Now()
+				}
+				if time.Since(w.lastMove) > stallWall {
 					stack := allStacks()
 					r := Result{Sig: "stalled"}
 					if ph.StallViolation {
@@ -175,6 +182,7 @@ func runWorker(spec *Spec, ph *Phase, tier string, seed uint64, from, to int, jo
 		w.cpuStart = cpuNow()
 		w.lastCPU = w.cpuStart
 		w.lastMove = time.Now()
+		w.winStart = w.lastMove
 		w.mu.Unlock()
 		res := runCase(spec, ph, tier, seed, i, race, false, w)
 		w.mu.Lock()
